@@ -4,7 +4,20 @@
 (*                                                                          *)
 (* One step per read or write of a field that more than one thread touches  *)
 (* (__stopping, __shutdown, __interrupt and its Event flag, __thread);      *)
-(* thread creation / bootstrap / death and join are steps.  __stopped is     *)
+(* thread creation / bootstrap / death and join are steps.  The start-up of  *)
+(* the loop thread is spelled out, because calls of other threads can land   *)
+(* anywhere in it:                                                           *)
+(*   sa5  start(): __stopping = False            (caller thread)            *)
+(*   sa6  start(): __thread = Thread(...)        thread object, not started *)
+(*   thS  Thread.start() entered (logged)        still not started ("new")  *)
+(*   sa7  the OS thread is launched              start() waits for it       *)
+(*   boot the new thread has bootstrapped        Thread.start() may return, *)
+(*                                               so may start(): from here  *)
+(*                                               on the service is started  *)
+(*   runE run() entered by the loop thread (logged)                          *)
+(*   r1   run(): per-run fields reset (__interrupt = Event())               *)
+(* Between boot and r1 the service is "started" for its callers while the    *)
+(* loop thread has not executed a single statement of run().  __stopped is   *)
 (* written by the loop thread only and read only by the `stopped` property,  *)
 (* on which no clause depends: omitted.  Reads by the loop thread of fields  *)
 (* only the loop thread writes (__interrupt inside interruptable_sleep) are  *)
@@ -41,9 +54,12 @@ CONSTANTS Ctls,            \* controller thread ids (naturals >= 1)
           UseUntil,        \* run(until=...) may end the loop
           PreStarted,      \* TRUE: the initial state is the one right after a first start() has returned
                            \*       (spends the call budget on what happens to a running service)
-          FixedStopOrder   \* 0: code as found   stopping; wake(); shutdown = forever
+          FixedStopOrder,  \* 0: code as found   stopping; wake(); shutdown = forever
                            \* 1: shutdown = forever; stopping; wake()
                            \* 2: if forever: shutdown = True; stopping; wake()
+          ResetInRun       \* FALSE: code as found  start() clears the stop request before it creates the thread
+                           \* TRUE:  design variant: the loop thread clears it at the head of run() (EXPECTED to lose
+                           \*        a stop() that lands between start() returning and the loop thread's first statement)
 
 AllKinds    == {"start", "stopTW", "stopTN", "stopFW", "stopFN", "wake", "wait", "waitT"}
 AllOutcomes == {"did", "nothing", "backoff", "exc", "base", "sstopF", "sstopT"}
@@ -71,10 +87,13 @@ vars  == <<sh, lp, ac, ncalls, g, ga, bad>>
 \* ===================================================================================
 GInit == [run |-> FALSE, saved |-> FALSE, dirty |-> FALSE, armed |-> FALSE, pendNW |-> FALSE,
           pendFinal |-> FALSE, mustDone |-> FALSE, finalRet |-> FALSE, finalOpen |-> FALSE,
-          revoked |-> FALSE, window |-> FALSE, everStop |-> FALSE, dc |-> 0, k |-> 0, last |-> "none"]
+          revoked |-> FALSE, window |-> FALSE, everStop |-> FALSE, dc |-> 0, k |-> 0, last |-> "none",
+          req |-> FALSE, rd |-> 0]
 GAIdle == [cl |-> FALSE, wf |-> FALSE, fr |-> FALSE, ph |-> "none", kind |-> "none"]
 GAInit(A) == [a \in A |-> GAIdle]
 
+\* the bounded form of "a stop() for a started service returns / the wait() after it returns" (see GDoBad)
+CannotReturn == "NoDoAfterStopReturned@StopCannotReturn"
 Tag(gg)    == IF gg.window THEN "@StopOrderWindow" ELSE IF gg.revoked THEN "@FinalRevoked" ELSE ""
 RevTag(gg) == IF gg.revoked THEN "@FinalRevoked" ELSE ""
 
@@ -87,7 +106,7 @@ RevTag(gg) == IF gg.revoked THEN "@FinalRevoked" ELSE ""
 GCallG(gg, gaa, a, kd) ==
   IF kd = "start" THEN
      [gg EXCEPT !.saved = gg.run, !.run = FALSE, !.dirty = FALSE, !.armed = FALSE, !.pendNW = FALSE, !.pendFinal = FALSE,
-                !.last = "none"]
+                !.last = "none", !.req = FALSE, !.rd = 0]
   ELSE IF IsStop(kd) THEN
      [gg EXCEPT !.run = FALSE, !.dirty = TRUE, !.everStop = TRUE,
                 !.revoked = gg.revoked \/ (~Fin(kd) /\ gg.finalOpen)
@@ -105,6 +124,10 @@ GCallA(gg, gaa, a, kd) ==
 GWakeEnterA(gaa, a) == [gaa EXCEPT ![a].ph = "inwake"]
 GWakeExitA(gaa, a)  == [gaa EXCEPT ![a].ph = "postwake"]
 GWaitEnterA(gaa, a) == [gaa EXCEPT ![a].ph = "waiting"]
+\* a judged stop() has made its request completely once it goes on to wait for the loop (here) or returns (GRetG):
+\* gg.req; gg.rd counts the do() calls entered since then
+GWaitEnterG(gg, gaa, a) ==
+  IF gaa[a].cl /\ IsStop(gaa[a].kind) /\ ~gg.req THEN [gg EXCEPT !.req = TRUE, !.rd = 0] ELSE gg
 
 \* --- a call returns; res in {"ok", "false", "exc"} ------------------------------------------------
 GRetG(gg, gaa, a, res) ==
@@ -112,7 +135,8 @@ GRetG(gg, gaa, a, res) ==
   IF kd = "start" THEN
      [gg EXCEPT !.run = IF res = "ok" THEN ~gg.dirty ELSE gg.saved /\ ~gg.dirty]
   ELSE IF IsStop(kd) /\ res = "ok" THEN
-     LET g1 == [gg EXCEPT !.finalRet = gg.finalRet \/ Fin(kd)] IN
+     LET g0 == [gg EXCEPT !.finalRet = gg.finalRet \/ Fin(kd)]
+         g1 == IF me.cl /\ ~g0.req THEN [g0 EXCEPT !.req = TRUE, !.rd = 0] ELSE g0 IN
      IF ~me.cl THEN g1
      ELSE IF Wt(kd) /\ a # 0 THEN [g1 EXCEPT !.armed = TRUE, !.mustDone = g1.mustDone \/ Fin(kd)]
      ELSE [g1 EXCEPT !.pendNW = TRUE, !.pendFinal = g1.pendFinal \/ Fin(kd)]
@@ -129,8 +153,16 @@ GRetBad(gg, gaa, a, res) ==
 \* --- do() is entered with outcome o -------------------------------------------------------------
 NewK(k, o) == IF o \in Fails THEN k + 1 ELSE IF o = "nothing" THEN k ELSE 0
 GDoG(gg, o) == [gg EXCEPT !.k = NewK(gg.k, o),
-                          !.last = IF o \in Fails THEN "fail" ELSE IF o = "nothing" THEN "nothing" ELSE "ok"]
-GDoBad(gg) == IF gg.armed THEN {"NoDoAfterStopReturned"} ELSE {}
+                          !.last = IF o \in Fails THEN "fail" ELSE IF o = "nothing" THEN "nothing" ELSE "ok",
+                          !.rd = IF gg.req /\ gg.rd < 2 THEN gg.rd + 1 ELSE gg.rd]
+\* armed: the stop() (or the wait() after a non-waiting stop) has returned: no do() at all.
+\* req: the stop() has made its request (it is waiting for the loop, or it has returned without waiting) and nothing
+\* has started the service again: the loop may still enter the ONE do() it was about to call when the request was
+\* made ("allowing any do() to complete first"); a second one means the request is lost on the loop, so the stop()
+\* that waits - or the wait() after it - can never return: the clause fails for want of a return.  A function of
+\* the logged order only (no clock): this is how "stop() never returns" is judged on a finite trace.
+GDoBad(gg) == (IF gg.armed THEN {"NoDoAfterStopReturned"} ELSE {})
+              \cup (IF gg.req /\ gg.rd >= 1 THEN {CannotReturn} ELSE {})
 
 \* --- interruptable_sleep is entered; `match`: the requested time is the one the law gives for gg.k ---
 GSleepBad(gg, match) ==
@@ -182,8 +214,13 @@ Pc(p) == lp.pc = p
 Go(p) == lp' = [lp EXCEPT !.pc = p]
 
 \* ---- loop thread ----------------------------------------------------------------------------------
-LBoot == Pc("boot") /\ Go("r1") /\ sh' = [sh EXCEPT !.tst = "alive"] /\ LoopOnly /\ Silent
-LR1   == Pc("r1") /\ Go("top1") /\ sh' = [sh EXCEPT !.intr = 1, !.flag = FALSE] /\ LoopOnly /\ Silent
+\* the new thread has bootstrapped (Thread.start() returns to its caller from here on); run() is not yet entered
+LBoot == Pc("boot") /\ Go("runE") /\ sh' = [sh EXCEPT !.tst = "alive"] /\ LoopOnly /\ Silent
+\* logged: run() entered by the loop thread
+LRunE == Pc("runE") /\ Go("r1") /\ UNCHANGED <<sh, ac, ncalls, g, ga, bad>>
+\* run(): the per-run fields are reset (design variant ResetInRun: the stop request as well)
+LR1   == /\ Pc("r1") /\ Go("top1") /\ LoopOnly /\ Silent
+         /\ sh' = [sh EXCEPT !.intr = 1, !.flag = FALSE, !.stopping = IF ResetInRun THEN FALSE ELSE sh.stopping]
 LTop1 == Pc("top1") /\ Go(IF sh.stopping THEN "fin1" ELSE "top2") /\ UNCHANGED sh /\ LoopOnly /\ Silent
 LTop2 == Pc("top2") /\ Go(IF sh.shutdown THEN "fin1" ELSE "doE") /\ UNCHANGED sh /\ LoopOnly /\ Silent
 \* logged: do() entered; the outcome is what the work function is going to do
@@ -281,7 +318,8 @@ ASt4(a) == /\ APc(a, "st4") /\ UNCHANGED sh /\ ASilent
            /\ ac' = [ac EXCEPT ![a].t = sh.thread,
                                 ![a].pc = IF sh.thread # 0 /\ a # 0 /\ Wt(ac[a].kind) THEN "wtE" ELSE "ret"]
 \* wait(timeout): logged entry (the method is public and stop() goes through it)
-AWtE(a) == APc(a, "wtE") /\ AGo(a, "wt1") /\ ga' = GWaitEnterA(ga, a) /\ UNCHANGED <<sh, lp, ncalls, g, bad>>
+AWtE(a) == /\ APc(a, "wtE") /\ AGo(a, "wt1") /\ ga' = GWaitEnterA(ga, a) /\ g' = GWaitEnterG(g, ga, a)
+           /\ UNCHANGED <<sh, lp, ncalls, bad>>
 AWt1(a) == /\ APc(a, "wt1") /\ UNCHANGED sh /\ ASilent
            /\ IF sh.thread # 0 /\ a # 0
                 THEN ac' = [ac EXCEPT ![a].pc = "wt2", ![a].t = sh.thread]
@@ -301,12 +339,20 @@ ASa2(a) == APc(a, "sa2") /\ AGo(a, IF TState(sh.thread) = "alive" THEN "sa3" ELS
 ASa3(a) == APc(a, "sa3") /\ AGo(a, "sa4") /\ UNCHANGED sh /\ ASilent     \* join(timeout=1): joined or timed out
 ASa4(a) == /\ APc(a, "sa4") /\ UNCHANGED sh /\ ASilent
            /\ IF TState(sh.thread) = "alive" THEN ac' = [ac EXCEPT ![a].pc = "ret", ![a].res = "exc"] ELSE AGo(a, "sa5")
-ASa5(a) == APc(a, "sa5") /\ AGo(a, "sa6") /\ ASilent /\ sh' = [sh EXCEPT !.stopping = FALSE]
-\* self.__thread = Thread(...); thread.start() (the new thread is "new" until it has bootstrapped itself)
-ASa6(a) == /\ APc(a, "sa6") /\ lp.pc = "none" /\ AGo(a, "sa8")
+ASa5(a) == /\ APc(a, "sa5") /\ AGo(a, "sa6") /\ ASilent
+           /\ sh' = [sh EXCEPT !.stopping = IF ResetInRun THEN sh.stopping ELSE FALSE]
+\* self.__thread = Thread(...): the thread object exists ("new": join() on it raises), no thread runs yet
+ASa6(a) == /\ APc(a, "sa6") /\ lp.pc = "none" /\ AGo(a, "thS")
            /\ sh' = [sh EXCEPT !.thread = sh.gen + 1, !.gen = sh.gen + 1, !.tst = "new"]
-           /\ lp' = [lp EXCEPT !.pc = "boot"]
+           /\ lp' = [lp EXCEPT !.pc = "created"]
            /\ UNCHANGED ncalls /\ Silent
+\* logged: Thread.start() entered
+AThS(a) == APc(a, "thS") /\ AGo(a, "sa7") /\ UNCHANGED <<sh, lp, ncalls, g, ga, bad>>
+\* the OS thread is launched ...
+ASa7(a) == /\ APc(a, "sa7") /\ lp.pc = "created" /\ AGo(a, "sa8")
+           /\ lp' = [lp EXCEPT !.pc = "boot"]
+           /\ UNCHANGED <<sh, ncalls>> /\ Silent
+\* ... and Thread.start() returns once the new thread has bootstrapped itself
 ASa8(a) == APc(a, "sa8") /\ sh.tst # "new" /\ AGo(a, "ret") /\ UNCHANGED sh /\ ASilent
 \* logged: call returned (res) or raised (res = "exc")
 ARet(a, res) ==
@@ -317,11 +363,11 @@ ARet(a, res) ==
 
 ActorSilent(a) == ASt0(a) \/ ASt1(a) \/ AWk1(a) \/ AWk2(a) \/ ASt3(a) \/ ASt4(a)
                   \/ AWt1(a) \/ AWt2(a) \/ AWt3(a)
-                  \/ ASa1(a) \/ ASa2(a) \/ ASa3(a) \/ ASa4(a) \/ ASa5(a) \/ ASa6(a) \/ ASa8(a)
-ActorLogged(a) == (\E kd \in AllKinds : ACall(a, kd)) \/ AWkE(a) \/ AWkX(a) \/ AWtE(a)
+                  \/ ASa1(a) \/ ASa2(a) \/ ASa3(a) \/ ASa4(a) \/ ASa5(a) \/ ASa6(a) \/ ASa7(a) \/ ASa8(a)
+ActorLogged(a) == (\E kd \in AllKinds : ACall(a, kd)) \/ AWkE(a) \/ AWkX(a) \/ AWtE(a) \/ AThS(a)
                   \/ (\E r \in {"ok", "false", "exc"} : ARet(a, r))
 
-Next == LoopSilent \/ (\E o \in AllOutcomes : LDo(o)) \/ LSleepE(lp.k = g.k) \/ LUntil \/ LFinE \/ LDone \/ LExit
+Next == LoopSilent \/ LRunE \/ (\E o \in AllOutcomes : LDo(o)) \/ LSleepE(lp.k = g.k) \/ LUntil \/ LFinE \/ LDone \/ LExit
         \/ \E a \in Actors : ActorSilent(a) \/ ActorLogged(a)
 
 Spec == Init /\ [][Next]_vars
@@ -334,11 +380,13 @@ TypeOK ==
   /\ lp.k \in Nat /\ lp.ndo \in 0..MaxDo /\ lp.out \in AllOutcomes
   /\ \A a \in Actors : ac[a].res \in {"ok", "false", "exc"}
   /\ (lp.pc = "none") = (sh.tst = "dead")
+  /\ (lp.pc \in {"created", "boot"}) = (sh.tst = "new")
 
 \* the six clauses: the monitor never finds the plain clause false ...
 BackoffLaw              == "BackoffLaw" \notin bad
 ClearOnSuccess          == "ClearOnSuccess" \notin bad
 NoDoAfterStopReturned   == "NoDoAfterStopReturned" \notin bad
+StopCanReturn           == CannotReturn \notin bad       \* same clause, the bounded "never returns" form
 DoneExactlyOnceIfFinal  == "DoneExactlyOnceIfFinal" \notin bad
 NoRestartAfterFinalStop == "NoRestartAfterFinalStop" \notin bad
 \* ... SurvivesAnything: whatever do() raised, the loop goes on to its `until` check; run() never raises
